@@ -93,3 +93,44 @@ package ops
 //@   requires isoperator(self)
 //@   modifies opstate(self)
 //@   ensures err == nil ==> (forall k :: 0 <= k && k < len(result) ==> result[k] != nil)
+
+// ---------------------------------------------------------------------------------------
+// C14: broadcasting helpers. Shapes, dtype, refusal and frame are proved; the element clause is
+// carried structurally: contents(result) is the chain of Repeat kernels applied to the source.
+
+//@ spec compat_dim(a int, b int) bool = a == b || a == 1 || b == 1
+//@ spec bdim(a int, b int) int = ite(a == 1, b, a)
+//@ spec maxi(a int, b int) int = ite(a >= b, a, b)
+//@ spec adim(t tensor.Tensor, r int, k int) int = ite(k - (r - rank(t)) >= 0, dim(t, k - (r - rank(t))), 1)
+//@ spec bcompat(a tensor.Tensor, b tensor.Tensor) bool = forall k :: 0 <= k && k < maxi(rank(a), rank(b)) ==>
+//@        compat_dim(adim(a, maxi(rank(a), rank(b)), k), adim(b, maxi(rank(a), rank(b)), k))
+//@ spec dims_positive(t tensor.Tensor) bool = forall k :: 0 <= k && k < rank(t) ==> dim(t, k) >= 1
+
+//@ func AddExtraDimsToTensor
+//@   tags C14,C02
+//@   requires originalT != nil
+//@   ensures err == nil && result != nil && fresh(result) && allocated(result)
+//@   ensures rank(result) == rank(originalT) + maxi(nExtraDims, 0) && dtype(result) == dtype(originalT) && contents(result) == contents(originalT)
+//@   ensures forall k :: 0 <= k && k < nExtraDims ==> dim(result, k) == 1
+//@   ensures forall k :: 0 <= k && k < rank(originalT) ==> dim(result, k + maxi(nExtraDims, 0)) == dim(originalT, k)
+//@   before Reshape assert hint_len: len(newShape) == maxi(nExtraDims, 0) + rank(t)
+//@   before Reshape assert hint_ones: forall k :: 0 <= k && k < maxi(nExtraDims, 0) ==> newShape[k] == 1
+//@   before Reshape assert hint_shape: forall k :: 0 <= k && k < rank(t) ==> newShape[maxi(nExtraDims, 0) + k] == dim(t, k)
+//@   loop 1 invariant 0 <= i && (i <= nExtraDims || i == 0) && len(newShape) == i && newShape != nil && base(newShape) != shaperef(t) && fresh(newShape) && (forall k :: 0 <= k && k < i ==> newShape[k] == 1)
+
+//@ func repeatTensorsForMutltidirBroadcast
+//@   tags C14,C02
+//@   requires A != nil && B != nil && rank(A) == rank(B)
+//@   scope extents_positive: dims_positive(A) && dims_positive(B)
+//@   ensures compatible_iff_ok: (err == nil) <==> (forall k :: 0 <= k && k < rank(A) ==> compat_dim(dim(A, k), dim(B, k)))
+//@   ensures err != nil ==> result0 == nil && result1 == nil
+//@   ensures shapes: err == nil ==> result0 != nil && result1 != nil && allocated(result0) && allocated(result1) &&
+//@          rank(result0) == rank(A) && rank(result1) == rank(A) && dtype(result0) == dtype(A) && dtype(result1) == dtype(B) &&
+//@          (forall k :: 0 <= k && k < rank(A) ==> dim(result0, k) == bdim(dim(A, k), dim(B, k)) && dim(result1, k) == bdim(dim(A, k), dim(B, k)))
+//@   ensures untouched_when_equal: err == nil && (forall k :: 0 <= k && k < rank(A) ==> dim(A, k) == dim(B, k)) ==> result0 == A && result1 == B
+//@   loop 1 invariant 0 - 1 <= axis && axis < nDims && nDims == rank(A0) && A != nil && B != nil && allocated(A) && allocated(B) &&
+//@          shapeA == shapeof(A0) && shapeB == shapeof(B0) && rank(A) == nDims && rank(B) == nDims && dtype(A) == dtype(A0) && dtype(B) == dtype(B0)
+//@   loop 1 invariant forall k :: axis < k && k < nDims ==> compat_dim(dim(A0, k), dim(B0, k)) &&
+//@          dim(A, k) == bdim(dim(A0, k), dim(B0, k)) && dim(B, k) == bdim(dim(A0, k), dim(B0, k))
+//@   loop 1 invariant forall k :: 0 <= k && k <= axis ==> dim(A, k) == dim(A0, k) && dim(B, k) == dim(B0, k)
+//@   loop 1 invariant (forall k :: axis < k && k < nDims ==> dim(A0, k) == dim(B0, k)) ==> A == A0 && B == B0
